@@ -36,6 +36,13 @@ def magic_bytes(w):
 
 def run(chk):
     w = C.world_for(chk)
+    # rejecting an input means returning an error value: building it must not be able to fail (shared with C05)
+    from . import c05_total as _c05t
+    chk.rule("R05.4", "error constructors are straight-line conversions (shared with C05)")
+    _c05t.error_ctors(chk, w)
+    from . import ctors as _ctors
+    _ctors.accessors(chk, w, only=["vaporetto::utils"])
+    _ctors.run(chk, w, only=['Model::new', 'DictModel::new'])
     chk.rule("R07.7", "buffering adaptors around the caller's sink are flushed with the error propagated")
     for rid, txt in (("R07.1", "magic written first / compared whole before decoding"), ("R07.2", "one bincode configuration"),
                      ("R07.3", "derived Encode/Decode symmetry"), ("R07.4", "error discipline in model IO"),
